@@ -11,7 +11,7 @@ proof gate (coq/Props/C08.v: ordering/sign logic of correlation_function and _te
             overlap_translate_finite, autoJW=False / opstr / default offsets of the term correlation functions ...; the runner logs the
             arguments of every call that was compared with its dense value; all public methods and their parameters are read by reflection and
             a method / parameter that is neither reached with all required value classes (OPTION_SPACE) nor classified is a failure
-  env       MPSEnvironment with bra != ket (incl. full_contraction)
+  env       MPSEnvironment with bra != ket and bra.norm, ket.norm != 1 (incl. full_contraction); the dense value carries both norms
   overlap   finite (norms, ignore_form) and infinite (dominant eigenvalue of the dense transfer matrix)
   ops_list  _term_to_ops_list  vs  Model/JW.v term_to_ops_list (vm_compute)
   corr_words  per-site operator words of Model/Corr.v (computed inside Coq) -> dense kron -> compared with correlation_function
@@ -35,6 +35,9 @@ F16_KEY = 'C08:correlation_function:autoJW:op_needs_JW(ops1)-used-for-sites2:Val
 F19_KEY = 'C08:sample_measurements:complex_amplitude=False:squared-inside-loop:n_sites>=2'
 F20_KEY = 'C08:term_correlation_function_left:autoJW:odd-parity-terms:JW_from_right-overwritten'
 F21_KEY = 'C08:expectation_value_terms_sum:infinite:max_range-in-sites-passed-as-unit-cells:term-beyond-contracted-sites'
+F08_1_KEY = 'C08:MPSEnvironment.correlation_function:i==j:bra.norm*ket.norm-applied-twice'
+# (bra.norm, ket.norm) of the stream env, in turn: MPSEnvironment documents that its measurements include both norms
+ENV_NORMS = [[0.5, 1.5], [2.0, 0.25], [1.0, 1.0], [1.5, 1.5], [1.0, 0.5]]
 
 
 # which measurement functions of tenpy.networks.mps one measurement record of the stream state/env calls
@@ -745,6 +748,25 @@ def tensor_lit(t):
     return '[' + '; '.join('[' + '; '.join('[' + '; '.join(gauss_lit(z) for z in row) + ']' for row in mat) + ']' for mat in t) + ']'
 
 
+def env_corr_diagonal_norm_twice(case, m, got, want, t):
+    """MPSEnvironment.correlation_function with bra.norm * ket.norm != 1: True when exactly the entries with sites1[x] == sites2[y] differ
+    from the dense <bra|O|ket> and every one of them equals the dense value times bra.norm * ket.norm once more"""
+    norms = (case.get('bra') or {}).get('norms')
+    if not norms or got.shape != want.shape:
+        return False
+    scale = float(norms[0]) * float(norms[1])
+    L = len(case['state']['sites'])
+    kw = m.get('kwargs', {})
+    s1, s2 = sorted(kw.get('sites1', range(L))), sorted(kw.get('sites2', range(L)))
+    diag = np.array([i == j for i in s1 for j in s2], dtype=bool)
+    if diag.shape != got.shape or not diag.any() or abs(scale - 1.0) < 1e-6:
+        return False
+    bound = t * max(1.0, np.max(np.abs(want)))
+    off_ok = np.all(np.abs(got - want)[~diag] <= bound)
+    twice = np.all(np.abs(got - scale * want)[diag] <= bound)
+    return bool(off_ok and twice and np.max(np.abs(got - want)[diag]) > bound)
+
+
 def judge(ctx, case, tag, m, r, tol):
     """compare one record; returns nothing, records failures"""
     what = m['f']
@@ -787,6 +809,8 @@ def judge(ctx, case, tag, m, r, tol):
             vkey = F20_KEY
     if what == 'terms_sum' and terms_sum_truncated(case['state'], m):
         vkey = F21_KEY
+    if what == 'corr' and env_corr_diagonal_norm_twice(case, m, got, want, t):
+        vkey = F08_1_KEY
     if got.shape != want.shape:
         ctx.fail('oracle', '%s returned %d values, expected %d %s[%s]' % (what, got.size, want.size, r.get('msg', ''), json.dumps(m)[:200]), info,
                  match_key='C08:%s:shape' % what)
@@ -1055,7 +1079,7 @@ def main(ctx):
         for st, tag in state_specs(rng, ctx):
             if st['kind'] == 'finite' and rng.random() < 0.6:
                 cases.append({'state': st, 'seed': rng.randrange(10 ** 8), 'measure': gen_measurements(rng, st, tag, env=True),
-                              'bra': {'chi_max': rng.choice([None, 2])}, 'tag': 'env'})
+                              'bra': {'chi_max': rng.choice([None, 2]), 'norms': cyc('env_norms', ENV_NORMS)}, 'tag': 'env'})
     res = run_chunks(ctx, 'state', cases)
     for case, r in zip(cases, res):
         if r is None:
@@ -1346,6 +1370,11 @@ def main(ctx):
         'C08 entropies: eigenvalues below 1e-16 of the dense reduced density matrices are dropped; tolerance 1e-8 (1e-6 for Renyi index n < 1, where '
         'rounding-error eigenvalues e contribute e^n); correlation lengths 1e-6',
         'C08 not modelled in Coq: contraction numerics, LP/RP environments, TransferMatrix eigenvectors (oracle only, 1e-10 / 1e-8 infinite)',
+        'C08 env: bra.norm and ket.norm are set to non-unit values (%s in turn) and the dense <bra|O|ket> carries bra.norm * ket.norm, as the '
+        'docstrings of MPSEnvironment say (full_contraction, expectation_value_multi_sites, _normalize_exp_val); exception '
+        'MPSEnvironment.expectation_value_terms_sum: its docstring warns that it "does not include normalization factors", so its value is compared '
+        'with the dense sum WITHOUT the two norms (documented behaviour, not counted as a violation; the runner reads the docstring of the tree under '
+        'test and compares with the norms as soon as the warning is gone)' % ENV_NORMS,
         'C08 Coq model: operator names are abstract letters with a need_JW flag; local relations JW^2=1, JW f = -f JW are those proved per site table in C12',
     ]
     return ctx.finish(RULE, 'theorems of coq/Props/C08.v (all i, j, all terms); _term_to_ops_list, the correlation_function words, the '
@@ -1359,7 +1388,7 @@ RULE = ('state: one case per (state, measurement call); states: finite L=2-7 (Sp
         'every state additionally with the entropy / spectrum / mutual information / correlation length / translation calls of '
         'gen_option_measurements (option values in turn, so that every run reaches all of them); '
         'term_list_correlation_function_right: non-trivial when additionally some product of a left and a right term is non-zero; '
-        'non-trivial when the state has a bond dimension > 1 and the call did not raise; env: same with a different random bra; '
+        'non-trivial when the state has a bond dimension > 1 and the call did not raise; env: same with a different random bra and non-unit bra.norm / ket.norm; '
         'ops_list/corr_words: random terms / (i, j, opstr, str_on_first) tuples; sample_loop: one case per sample_measurements call on an '
         'exactly representable MPS (non-trivial: >= 2 sites and a weight != 1); tcf_words: one case per result entry (non-trivial: '
         'defined and fermionic operators present); distinct = distinct canonical inputs.')
